@@ -419,6 +419,37 @@ def check_C03(ctx: Ctx) -> None:
             ns_rows = evs.count("N") if c["bindings"] else 0
             if ns_rows and not c["o"].ns:
                 ctx.fail("namespace row in a stream without namespace declarations", dict(request=c["req"]))
+    _c03_version_cases(ctx)
+
+
+def _c03_version_cases(ctx: Ctx) -> None:
+    """Namespace rows appear only in version-2 streams, whatever version= the caller passed."""
+    import dataclasses
+    from pyjelly.options import StreamParameters
+    from pyjelly.serialize.streams import SerializerOptions, TripleStream
+    from pyjelly.integrations.generic.serialize import GenericSinkTermEncoder, stream_frames as g_stream_frames
+
+    lines, metas = [], []
+    for ver in (0, 1, 2, 7):
+        for via_replace in (False, True):
+            try:
+                p = (dataclasses.replace(StreamParameters(version=ver), namespace_declarations=True) if via_replace
+                     else StreamParameters(version=ver, namespace_declarations=True))
+            except Exception:  # noqa: BLE001  (refusing a version is not a violation)
+                ctx.dist["version_refused"] += 1
+                continue
+            so = SerializerOptions(params=p)
+            st = TripleStream(encoder=GenericSinkTermEncoder(lookup_preset=so.lookup_preset), options=so)
+            sink = mk_sink([Triple(IRI("http://v/s"), IRI("http://v/p"), Literal("o"))], [("ex", IRI("http://v/"))])
+            b = impl.frames_bytes(list(g_stream_frames(st, sink)), True)
+            lines.append(spec_line(b, True))
+            metas.append((ver, via_replace, b))
+    for (ver, via, b), line in zip(metas, __import__("common").run_driver(lines)):
+        verdict, _, _ = parse_spec_response(line)
+        ctx.case(("version-ns", ver, via), True)
+        if verdict != "ok":
+            ctx.fail(f"StreamParameters(version={ver}, namespace_declarations=True){' via replace' if via else ''}: the independent decoder rejects the stream: {verdict}",
+                     dict(bytes=b.hex(), version=ver))
 
 
 def _dedup_bindings(bindings):
@@ -661,15 +692,23 @@ def check_C06(ctx: Ctx) -> None:
             sb = impl.STREAMS[cls](encoder=gser.GenericSinkTermEncoder(lookup_preset=shared.lookup_preset), options=shared)
         except Exception:  # noqa: BLE001
             continue
-        ga, gb = gser.stream_frames(sa, (x for x in a_st)), gser.stream_frames(sb, (x for x in b_st))
-        fa, fb, live = [], [], [0, 1]
+        fa, fb = [], []
+        gb = gser.stream_frames(sb, (x for x in b_st))
+
+        def src_a():
+            # the statement source of A advances B: B runs while A has rows pending (a nested serialization)
+            for st in a_st:
+                if r.random() < 0.7:
+                    f = next(gb, None)
+                    if f is not None:
+                        fb.append(f)
+                yield st
+
         try:
-            while live:
-                j = r.choice(live)
-                try:
-                    (fa if j == 0 else fb).append(next(ga if j == 0 else gb))
-                except StopIteration:
-                    live.remove(j)
+            for f in gser.stream_frames(sa, src_a()):
+                fa.append(f)
+            for f in gb:
+                fb.append(f)
         except Exception as e:  # noqa: BLE001
             ctx.fail(f"two streams built from one options object: {type(e).__name__}", dict(opts=o.describe()))
             continue
@@ -1164,7 +1203,11 @@ def check_C13(ctx: Ctx) -> None:
     for ver in (0, 1, 2, 3, 7):
         for nd in (False, True):
             for via_replace in (False, True):
-                p = dataclasses.replace(StreamParameters(version=ver), namespace_declarations=nd) if via_replace else StreamParameters(version=ver, namespace_declarations=nd)
+                try:
+                    p = dataclasses.replace(StreamParameters(version=ver), namespace_declarations=nd) if via_replace else StreamParameters(version=ver, namespace_declarations=nd)
+                except Exception:  # noqa: BLE001  (refusing a version is not a violation)
+                    ctx.dist["version_refused"] += 1
+                    continue
                 so = SerializerOptions(params=p)
                 st = TripleStream(encoder=GenericSinkTermEncoder(lookup_preset=so.lookup_preset), options=so)
                 sink = mk_sink([Triple(IRI("http://v/s"), IRI("http://v/p"), Literal("o"))], [("ex", IRI("http://v/"))])
@@ -1891,6 +1934,9 @@ def check_C17(ctx: Ctx) -> None:
     for (kind, entry, b), line in zip(inputs, lines):
         out, rss, ms = line.rsplit("\t", 2)
         rss, ms = int(rss), int(ms)
+        if out == "SKIPPED-AFTER-HANGS":
+            ctx.dist["skipped_after_three_hangs"] += 1
+            continue
         base_rss = rss if base_rss is None else base_rss
         ctx.case((entry, b.hex()), len(b) > 2, sample=dict(kind=kind, entry=entry, bytes=b.hex()[:120], outcome=out[-60:]))
         ctx.dist[f"kind:{kind}"] += 1
